@@ -437,6 +437,11 @@ func (handle *writeTxnHandle) Commit() ReadTxn {
 		table.meta.released()
 		table.locked = false
 	}
+	// Tables registered after this transaction was started are not part of
+	// its copy of the root. Keep them, or the new root would drop them.
+	if len(currentRoot) > len(root) {
+		root = append(root, currentRoot[len(root):]...)
+	}
 	txn.tableEntries = nil
 
 	// Commit the transaction to build the new root tree and then
